@@ -179,7 +179,11 @@ def run(prog: Program, col: Collector, tier: str, refs: Optional[Refs] = None, c
     col.check(ok, f"{rr.fq}::interpret(type(x), *map(self, children(x)))", "children are reinterpreted and passed in order",
               "recursion_reinterpret does not call interpret(type(x), *map(recursion_reinterpret, children(x)))", rr.loc())
     sr = require_func(prog, "funsor.interpreter::stack_reinterpret")
-    calls = [n for n in walk_no_nested(sr.node) if isinstance(n, ast.Call) and isinstance(n.func, ast.Name) and n.func.id == "interpret"]
+    # locals bound to `<stack top>.interpret`
+    interp_aliases = {t.id for n in walk_no_nested(sr.node) if isinstance(n, ast.Assign) and isinstance(n.value, ast.Attribute) and n.value.attr == "interpret"
+                      for t in n.targets if isinstance(t, ast.Name)}
+    calls = [n for n in walk_no_nested(sr.node) if isinstance(n, ast.Call) and ((isinstance(n.func, ast.Name) and n.func.id in interp_aliases)
+                                                                                 or (isinstance(n.func, ast.Attribute) and n.func.attr == "interpret"))]
     ok = False
     for c in calls:
         if len(c.args) == 2 and isinstance(c.args[0], ast.Call) and norm(c.args[0].func) == "type" and isinstance(c.args[1], ast.Starred) and isinstance(c.args[1].value, ast.GeneratorExp):
